@@ -815,8 +815,19 @@ impl<B> Flow<B, Redirect> {
             RedirectAuthHeaders::SameHost => can_redirect_auth_header(request.uri(), &uri),
         };
 
+        // A Host header set on the original request names the host of the original uri.
+        // It must not follow the request to another host.
+        let keep_host_header = match (request.uri().host(), uri.host()) {
+            (Some(a), Some(b)) => a.eq_ignore_ascii_case(b),
+            _ => false,
+        };
+
         // Override with the new uri
         request.set_uri(uri);
+
+        if !keep_host_header {
+            request.unset_header("host")?;
+        }
 
         if !keep_auth_header {
             request.unset_header("authorization")?;
